@@ -9,6 +9,7 @@
 -/
 import ControlModel.Gen.EnvFsm
 import ControlModel.Gen.EnvLocks
+import ControlModel.Gen.FailureFacts
 import ControlModel.Proofs.Env
 import ControlModel.Proofs.EnvConc
 import ControlModel.Spec.C01
@@ -204,6 +205,15 @@ theorem C01_lock_sites_are_code :
     Gen.stateWriteSites.map (·.2) =
       [("state", false), ("wfState.String()", false), ("ERROR", false), ("ERROR", false), ("DONE", true),
        ("ERROR", false), ("ERROR", false), ("ERROR", false)] := by decide
+
+/-- The one unlocked writer whose argument is not a literal — `env.setState(wfState.String())` in
+    the workflow watcher (`subscribeToWfState`) — only ever writes ERROR: the watcher reacts to
+    ERROR only, arms its timer once and LEAVES its loop at once (so the value the timer's
+    function later forces cannot be overwritten by a later notification), and what it forces
+    when GO_ERROR is refused is that ERROR (go/ast facts shared with C03, re-read on every run).
+    With `C01_lock_sites_are_code` this is why `Piece.force` writes ERROR and nothing else. -/
+theorem C01_watcher_forces_error_only_is_code :
+    Gen.C03.watcherOnError = true ∧ Gen.C03.watcherOneShot = true ∧ Gen.C03.forcedError = true := by decide
 
 /-- **At most one transition or teardown of an environment is in progress at any instant**:
     for EVERY set of concurrent callers (any requests) and EVERY schedule of their moves
